@@ -578,12 +578,14 @@ class cleanup_functools_wrapper(object):
 
 
 _MAX_DEPTH = 32
+_MAX_VISITS = 256
 
 
 class _InProgress(threading.local):
     def __init__(self):
         self.funcs = set()
         self.depth = 0
+        self.visits = 0
 
 _in_progress = _InProgress()
 
@@ -593,8 +595,15 @@ def autoforwards_function(func, args, kwargs):
     # back to it) tells nothing about its own parameters
     key = (id(func), tuple(id(arg) for arg in args),
            tuple(sorted((name, id(arg)) for name, arg in kwargs.items())))
-    if key in _in_progress.funcs or _in_progress.depth >= _MAX_DEPTH:
-        # (or forwards to itself with other arguments each time)
+    if not _in_progress.depth:
+        _in_progress.visits = 0
+    _in_progress.visits += 1
+    if (
+            key in _in_progress.funcs
+            or _in_progress.depth >= _MAX_DEPTH
+            or _in_progress.visits > _MAX_VISITS):
+        # (or forwards to itself with other arguments each time; several
+        # such calls per function multiply at every level)
         raise UnknownForwards
     _in_progress.funcs.add(key)
     _in_progress.depth += 1
